@@ -436,10 +436,14 @@ def r13_3(model: Model, rep: Report) -> None:
         inR = sa.member(k, R)
         axioms = []
         problems = []
-        guarded = any(c == ("not", ("truth", ("attr", X, "parents"))) or (c[0] == "not" and c[1][0] == "truth" and mentions(c[1], "parents") and mentions(c[1], X)) for c in p.conds)
-        guarded = guarded or any(mentions(c, ("attr", X, "parents")) for c in p.conds)
+        # the rewrite is the marginalisation of a JOINT: the path must establish that the summand has no conditioning variables (with
+        # conditions, Σ_C P(C | Pa) = 1 holds only if no summed variable occurs among the conditions or their subscripts)
+        gfm = f_and(*[sa.cond(c) for c in p.conds])
+        guarded = any(compare(f_and(gfm, sa.cond(("truth", t_))), False)[0]
+                      for t_ in (("attr", X, "parents"), ("attr", ("attr", X, "distribution"), "parents")))
         if not guarded:
-            problems.append("a joint is marginalised without testing that it has no conditioning variables")
+            problems.append("a probability is marginalised on a path that does not establish that it has no conditioning variables "
+                            "(Σ over the children of a CONDITIONAL probability is 1 only if no summed variable occurs among the conditions)")
         for c in p.conds:
             neg = c[0] == "not"
             cc = c[1] if neg else c
